@@ -150,10 +150,18 @@ def h_assign(ctx, skeleton, obj, param, kind, grouped=None):
         else:
             good = [objs["dev"].power, SourceValue(77 * u.W)]
             bad = [getattr(target, param), value]
-            ModelingUpdate([good, bad] if grouped == "valid_first" else [bad, good])
+            if grouped == "noop_first":
+                # a change that re-submits the current value, followed by the invalid one
+                cur = objs["net"].bandwidth_energy_intensity
+                ModelingUpdate([[cur, SourceValue(cur.value)], bad])
+            elif grouped == "noop_between":
+                cur = objs["net"].bandwidth_energy_intensity
+                ModelingUpdate([good, [cur, SourceValue(cur.value)], bad])
+            else:
+                ModelingUpdate([good, bad] if grouped == "valid_first" else [bad, good])
     except Exception as e:  # noqa
         ctx.count("refused")
-        if kind == "sign" and grouped is None:
+        if kind == "sign":
             neg_ok = param in cls.attributes_that_can_have_negative_values()
             # refusals may also come from recomputation (C15); validation refusals must be for negative values
             if type(e).__name__ == "ValueError" and "should be positive" in str(e):
@@ -239,6 +247,11 @@ def plan(tier, seed):
             live.append(("assign", dict(skeleton=sk, obj=o, param=q, kind=f"dim:{other_dim_units(cls, q)[0]}")))
             live.append(("assign", dict(skeleton=sk, obj=o, param=q, kind=rnd.choice(TYPE_KINDS))))
             live.append(("assign", dict(skeleton=sk, obj=o, param=q, kind=f"dim:{other_dim_units(cls, q)[1]}", grouped=rnd.choice(["valid_first", "invalid_first"]))))
+    for o, q in (("job", "ram_needed"), ("job", "request_duration"), ("srv", "ram"), ("step", "user_time_spent"), ("st", "storage_capacity")):
+        cls = CLASSES[CLS_OF[o]]
+        for g in ("noop_first", "noop_between"):
+            p.append(("assign", dict(skeleton="T1", obj=o, param=q, kind="sign", grouped=g)))
+            p.append(("assign", dict(skeleton="T1", obj=o, param=q, kind=f"dim:{other_dim_units(cls, q)[0]}", grouped=g)))
     if tier == "quick":
         keep = [x for x in live if x[1]["kind"] == "sign"]
         rest = [x for x in live if x[1]["kind"] != "sign"]
